@@ -3,10 +3,10 @@
 BASIC = ["bool", "int", "int8", "int16", "int32", "int64", "uint", "uint8", "uint16", "uint32", "uint64", "uintptr",
          "float32", "float64", "string", "any"]
 BANK_PLAIN = ["Inner", "Deep", "EmbedVal", "EmbedPtr", "Shadow", "EmbedUnexported", "Named", "Twice", "DescTag", "MyString", "MyInt",
-              "MyFloat", "MyInts", "time.Time", "slog.Level", "MyInt8", "MyUint16", "MyUint", "MyInt64", "MyBool", "Levels", "Empty", "Markers", "IDt", "BaseT", "DocT", "DocP"]
+              "MyFloat", "MyInts", "time.Time", "slog.Level", "MyInt8", "MyUint16", "MyUint", "MyInt64", "MyBool", "Levels", "Empty", "Markers", "IDt", "BaseT", "DocT", "DocP", "PtrInt", "PtrInner", "HoldsPtrs"]
 BANK_KNOWN = {"ShadowByTag": "D14", "Ambiguous": "D14", "EmbedTagged": "D16", "EmbedNonStruct": "D16", "BadTag": "D15",
               "WithMarshalers": "D13", "big.Int": "D13"}
-BANK_REC = ["Rec", "RecA"]
+BANK_REC = ["Rec", "RecA", "PtrSelf", "PtrA"]
 BANK_BAD = ["Handler", "IntKeyed", "MyChan", "TwoHandlers", "Handler"]
 GEN = {"names": [], "redeclared": set(), "embedding": set(), "embeds": {}}
 
